@@ -53,13 +53,24 @@ def make_scratch(repo):
     return d
 
 
+ATTACH = re.compile(r'^\s*//\s*@attach\s+(\S+)\s+as\s+(\w+)')
+
+
 def attach(scratch, files):
-    lib = os.path.join(scratch, 'yrs', 'src', 'lib.rs')
-    t = open(lib, encoding='utf-8').read()
-    extra = '\n'
+    """each harness file becomes a cfg(kani) child module of lib.rs, or of the file named by its
+    `// @attach <relpath> as <modname>` line (so that private items of that module are reachable)"""
     for i, p in enumerate(files):
-        extra += '#[cfg(kani)]\n#[path = "%s"]\nmod vx_kani_%d;\n' % (p, i)
-    open(lib, 'w', encoding='utf-8').write(t + extra)
+        target, name = 'yrs/src/lib.rs', 'vx_kani_%d' % i
+        for line in open(p, encoding='utf-8'):
+            m = ATTACH.match(line)
+            if m:
+                target, name = m.group(1), m.group(2)
+                break
+        tp = os.path.join(scratch, target)
+        t = open(tp, encoding='utf-8').read()
+        vis = 'pub(crate) ' if name.startswith('vx_kani_enc') else ''
+        t += '\n#[cfg(kani)]\n#[path = "%s"]\n%smod %s;\n' % (p, vis, name)
+        open(tp, 'w', encoding='utf-8').write(t)
 
 
 def split_blocks(out):
@@ -94,7 +105,9 @@ def run_group(group, tier, repo='/repo', only=None):
     metas = []
     for f in files:
         metas += parse_meta(f)
-    sel = [m for m in metas if tier in m['tiers'] and (only is None or m['name'] in only)]
+    pref = group.get('select')
+    sel = [m for m in metas if tier in m['tiers'] and (only is None or m['name'] in only)
+           and (not pref or any(m['name'].startswith(x) for x in pref))]
     res = {'harnesses': [], 'undecided': [], 'wall_s': 0}
     if not sel:
         return res
@@ -106,9 +119,9 @@ def run_group(group, tier, repo='/repo', only=None):
         env['CARGO_TARGET_DIR'] = os.path.join(CACHE, 'kani-target')
         os.makedirs(CACHE, exist_ok=True)
         # harnesses are grouped by timeout so one slow harness cannot starve the rest
-        budget = max(int(m.get('timeout', 300)) for m in sel)
-        cmd = ['cargo', 'kani', '-p', 'yrs', '-Z', 'function-contracts', '-Z', 'stubbing', '--output-format', 'terse',
-               '-j', str(group.get('jobs', 8))]
+        budget = max(int(m.get('timeout', 180)) for m in sel)
+        cmd = ['cargo', 'kani', '-p', 'yrs', '-Z', 'function-contracts', '-Z', 'stubbing', '-Z', 'unstable-options',
+               '--harness-timeout', '%ds' % budget, '--output-format', 'terse', '-j', str(group.get('jobs', 8))]
         for m in sel:
             cmd += ['--harness', m['name']]
         try:
@@ -132,6 +145,8 @@ def run_group(group, tier, repo='/repo', only=None):
                 txt = '\n'.join(b)
                 if 'VERIFICATION:- SUCCESSFUL' in txt:
                     h['status'] = 'SUCCESS'
+                elif re.search(r'TIMEOUT|timed out|CBMC timed out', txt, re.I):
+                    h['status'] = 'TIMEOUT'
                 elif 'VERIFICATION:- FAILED' in txt:
                     h['status'] = 'FAILED'
                     fl = [l.strip() for l in b if l.startswith('Failed Checks:')]
